@@ -230,3 +230,82 @@ def note_mod_canary(H, _):
     k = H.int("module_number", 0, 0xFFFF)
     note.module = k
     H.check("canary_number_is_position", H.implies(k == 1, H.getattr(note, "mod") is p.modules[1]))
+
+
+# ------------------------------------------------------------------------------- deductive: attach_module on a list of any length
+
+import z3  # noqa: E402
+
+from rvproof.heap import RefHeap  # noqa: E402
+from rvproof.sym import SymBool  # noqa: E402
+
+
+def _attach_cases(tier):
+    return [(k, k) for k in ("fresh_module", "already_attached", "foreign_module", "loading", "empty_slot")]
+
+
+@contract("attach_module_step", ["C14"], cases=_attach_cases, replayable=False, timeout_ms=60000,
+          targets=["rv.project:Project.attach_module", "rv.project:Project.module_index"])
+def attach_module_step(H, case):
+    """The real Project.attach_module on a module list of ANY length and content (array-theory list of
+    object references, 0 = empty position):
+    * a module owned by another project raises ModuleOwnershipError, list unchanged;
+    * a module already in the list: no-op;
+    * otherwise (not loading) it is stored at the LOWEST empty position if the list has one and appended
+      at the end otherwise; with loading=True it is always appended; in both cases module.index is that
+      position, module.parent is the project, every other position is unchanged and the length grows
+      only when appending;
+    * attach_module(None) appends an empty position."""
+    c = H.pctx
+    rh = RefHeap()
+    p = Project()
+    other = Project()
+    m = Amplifier()
+    mref = rh.register(m, "m")
+    items0, n0 = rh.items(), rh.length()
+    c.add(n0 >= 1)
+    p.modules = rh.view()
+    q, q2 = z3.Ints("q q2")
+    in_list = z3.Exists([q], z3.And(0 <= q, q < n0, items0[q] == mref))
+    has_hole = z3.Exists([q], z3.And(0 <= q, q < n0, items0[q] == 0))
+    old = rh.snapshot()
+    if case == "foreign_module":
+        m.parent, m.index = other, 1
+        exc, _ = H.raises(p.attach_module, m)
+        H.check("foreign_module_refused", isinstance(exc, ModuleOwnershipError))
+        H.check("refusal_changes_nothing", rh.tab["items"] is old.tab["items"] and rh.len["items"] is old.len["items"] and m.parent is other and m.index == 1)
+        return
+    if case == "empty_slot":
+        exc, r = H.raises(p.attach_module, None)
+        H.check("returns_none", exc is None and r is None)
+        H.check("empty_position_appended", SymBool(z3.And(rh.length() == n0 + 1, rh.items()[n0] == 0,
+                                                         z3.ForAll([q], z3.Implies(z3.And(0 <= q, q < n0), rh.items()[q] == items0[q])))))
+        return
+    if case == "already_attached":
+        c.add(in_list)
+        m.parent = p
+        m.index = H.int("old_index", 0, None)
+        exc, r = H.raises(p.attach_module, m)
+        H.check("returns_module", exc is None and r is m)
+        H.check("attaching_twice_is_a_no_op", rh.tab["items"] is old.tab["items"] and rh.len["items"] is old.len["items"])
+        return
+    c.add(z3.Not(in_list))
+    loading = case == "loading"
+    exc, r = H.raises(p.attach_module, m, loading=loading)
+    H.check("returns_module", exc is None and r is m)
+    H.check("parent_is_project", m.parent is p)
+    idx = m.index
+    items1, n1 = rh.items(), rh.length()
+    from rvproof.sym import as_int_z
+
+    iz = as_int_z(idx)
+    H.check("module_stored_at_its_index", SymBool(z3.And(0 <= iz, iz < n1, items1[iz] == mref)))
+    H.check("every_other_position_unchanged", SymBool(z3.ForAll([q], z3.Implies(z3.And(0 <= q, q < n0, q != iz), items1[q] == items0[q]))))
+    if loading:
+        H.check("loading_appends", SymBool(z3.And(iz == n0, n1 == n0 + 1)))
+    else:
+        H.check("lowest_empty_position_if_any", SymBool(z3.Implies(has_hole, z3.And(
+            items0[iz] == 0, n1 == n0, z3.ForAll([q], z3.Implies(z3.And(0 <= q, q < iz), items0[q] != 0))))))
+        H.check("appended_when_no_empty_position", SymBool(z3.Implies(z3.Not(has_hole), z3.And(iz == n0, n1 == n0 + 1))))
+    H.check("module_occupies_exactly_one_position", SymBool(z3.ForAll([q], z3.Implies(z3.And(0 <= q, q < n1, items1[q] == mref), q == iz))))
+    H.cover("reached")
